@@ -164,6 +164,57 @@ theorem updateKeepsInserterXmin_witness :
                   .auto (.ins "u" [[.int 5, .int 55]])])).1) = false := by
   decide
 
+/-! the code after `fix: the keys a transaction inserts into a unique index join its write set` -/
+
+/-- two open transactions insert the same key: the second committer is refused with a constraint error, as specified -/
+theorem commitChecksInsertedKeysOnly_second_inserter_refused :
+    (run { commitChecksInsertedKeysOnly := true } catU
+      (preU ++ [.begin "s1", .begin "s2", .exec "s1" (.ins "u" [[.int 5, .int 50]]),
+                .exec "s2" (.ins "u" [[.int 5, .int 51]]), .commit "s1", .commit "s2"])).2.getLast?
+      = some (.refused .constraint) ∧
+    constraintsHold catU (live { commitChecksInsertedKeysOnly := true }
+      (run { commitChecksInsertedKeysOnly := true } catU
+        (preU ++ [.begin "s1", .begin "s2", .exec "s1" (.ins "u" [[.int 5, .int 50]]),
+                  .exec "s2" (.ins "u" [[.int 5, .int 51]]), .commit "s1", .commit "s2"])).1) = true := by
+  decide
+
+/-- … but only INSERTed keys are compared: a transaction that reaches key 5 by UPDATE and one that inserts 5 both
+    commit, the key is there twice -/
+theorem commitChecksInsertedKeysOnly_witness :
+    constraintsHold catU (live { commitChecksInsertedKeysOnly := true }
+      (run { commitChecksInsertedKeysOnly := true } catU
+        (preU ++ [.begin "s1", .begin "s2", .exec "s1" (.upd "u" "k" false (.int 5) (kEq 1)),
+                  .exec "s2" (.ins "u" [[.int 5, .int 51]]), .commit "s1", .commit "s2"])).1) = false := by
+  decide
+
+/-- … and a key stays in the write set when its row is deleted again: the commit is refused although the committed
+    database would hold the key once (the specification commits) -/
+theorem commitChecksInsertedKeysOnly_spurious_refusal :
+    (run { commitChecksInsertedKeysOnly := true } catU
+      (preU ++ [.begin "s1", .begin "s2", .exec "s1" (.ins "u" [[.int 5, .int 50]]), .exec "s1" (.del "u" (kEq 5)),
+                .exec "s2" (.ins "u" [[.int 5, .int 51]]), .commit "s2", .commit "s1"])).2.getLast?
+      = some (.refused .constraint) ∧
+    (run Defects.none catU
+      (preU ++ [.begin "s1", .begin "s2", .exec "s1" (.ins "u" [[.int 5, .int 50]]), .exec "s1" (.del "u" (kEq 5)),
+                .exec "s2" (.ins "u" [[.int 5, .int 51]]), .commit "s2", .commit "s1"])).2.getLast? = some .ok := by
+  decide
+
+/-- the index defects under the key comparison at commit: delete + re-insert + rollback still loses the live row's
+    entry, and the duplicate inserted afterwards is not caught at its commit -/
+theorem indexOneEntryPerKey_witness_keys :
+    constraintsHold catU (live { indexOneEntryPerKey := true, commitChecksInsertedKeysOnly := true }
+      (run { indexOneEntryPerKey := true, commitChecksInsertedKeysOnly := true } catU
+        (preU ++ [.begin "s1", .exec "s1" (.del "u" (kEq 1)), .exec "s1" (.ins "u" [[.int 1, .int 11]]), .rollback "s1",
+                  .auto (.ins "u" [[.int 1, .int 12]])])).1) = false := by
+  decide
+
+theorem indexNotMaintainedOnKeyUpdate_witness_keys :
+    constraintsHold catU (live { indexNotMaintainedOnKeyUpdate := true, commitChecksInsertedKeysOnly := true }
+      (run { indexNotMaintainedOnKeyUpdate := true, commitChecksInsertedKeysOnly := true } catU
+        (preU ++ [.auto (.upd "u" "k" false (.int 3) (kEq 1)), .auto (.ins "u" [[.int 1, .int 30]]),
+                  .auto (.ins "u" [[.int 3, .int 40]])])).1) = false := by
+  decide
+
 /-- the specification on the same histories: the second commit / the duplicate insert is refused, the constraints hold -/
 example :
     (run Defects.none catU
